@@ -1,8 +1,8 @@
 (* Minor-servo PLC (tag Msv): obligations on the GENERATED tables (re-opened on every run).
    The hand-written model is a function of Gen/MsvTables.v; the hypotheses of the theorems about
    a configuration are discharged here for the configuration of the shipped simulator. *)
-From DS Require Import Base.Prelude Model.MsvTypes Model.MsvModel Model.MsvFloat Gen.MsvTables
-  Proofs.MsvProofs Proofs.MsvKin.
+From DS Require Import Base.Prelude Model.MsvTypes Model.MsvModel Model.MsvFloat Gen.MsvTables.
+From DS Require Import Proofs.MsvProofs Proofs.MsvKin.
 From Coq Require Import Reals Lra.
 From Flocq Require Import Core.Raux IEEE754.BinarySingleNaN.
 
